@@ -306,6 +306,11 @@ type scripted struct {
 func (s *scripted) Unlock(ctx context.Context, in *pb.UnlockRequest, _ ...grpc.CallOption) (*pb.UnlockResponse, error) {
 	o := s.outs[min(s.calls, len(s.outs)-1)]
 	s.calls++
+	if s.calls > 12 {
+		// far beyond any budget used here: end a client that would retry for ever (virtual time would never
+		// run out), with an answer no script contains
+		return nil, status.Error(codes.DataLoss, "scripted: attempt limit of the stub")
+	}
 	switch {
 	case o == "ok":
 		return &pb.UnlockResponse{Unlocked: true, Name: in.Name}, nil
@@ -387,7 +392,7 @@ func retryPart(t *testing.T, res *common.Result) {
 		scripts = append(scripts, []string{a, "ok"}, []string{"U", a, "ok"}, []string{"U", a, "U", "ok"}, []string{"U", "U", a, a, "ok"})
 	}
 	lines, want := []string{}, []string{}
-	for M := 0; M <= 3; M++ {
+	for M := -2; M <= 3; M++ { // MaxRetries is an int: a negative budget is "no retries", as 0
 		for _, sc := range scripts {
 			sc := sc
 			synctest.Test(t, func(t *testing.T) {
@@ -426,7 +431,7 @@ func retryPart(t *testing.T, res *common.Result) {
 						break
 					}
 				}
-				if st.calls > M+1 {
+				if st.calls > max(M, 0)+1 {
 					res.Find(common.Finding{Kind: "violation", Property: "C19", Signature: "client:retry:too-many-attempts",
 						What: fmt.Sprintf("MaxRetries=%d, answers %v: %d attempts", M, sc, st.calls), Replay: map[string]any{"max_retries": M, "script": sc, "attempts": st.calls}})
 				}
@@ -456,7 +461,7 @@ func retryPart(t *testing.T, res *common.Result) {
 func TestClientModel(t *testing.T) {
 	const prop = "C19"
 	res := common.NewResult("clientmodel")
-	res.Rule = "(1) random histories of one auto-renewing client (TryLock with lock timeouts from {0,5,10,11,12,30,31,40,45,60} s and sizes 0-3 on 3-5 names, Unlock with live, dead and garbage keys, advances of 1-200 s or to a renew instant -1/0/+1 ns, Close) on the real client over a recording transport to the real service, and on the Lean model M5; compared after every operation: RPCs emitted with request fields, instants and answers, panics, server listing, lease timers, the client's renew map. (2) rpcWithRetry against the model's retry for every script of 0-5 Unavailable answers followed by each possible final outcome (every gRPC code, a non-status error) and MaxRetries 0-3. distinct = distinct op sequence / retry script; non-trivial = (1) at least one Renew RPC and one Unlock, (2) at least one Unavailable answer"
+	res.Rule = "(1) random histories of one auto-renewing client (TryLock with lock timeouts from {0,5,10,11,12,30,31,40,45,60} s and sizes 0-3 on 3-5 names, Unlock with live, dead and garbage keys, advances of 1-200 s or to a renew instant -1/0/+1 ns, Close) on the real client over a recording transport to the real service, and on the Lean model M5; compared after every operation: RPCs emitted with request fields, instants and answers, panics, server listing, lease timers, the client's renew map. (2) rpcWithRetry against the model's retry for every script of 0-5 Unavailable answers followed by each possible final outcome (every gRPC code, a non-status error) and MaxRetries -2..3 (an int: negative = none). distinct = distinct op sequence / retry script; non-trivial = (1) at least one Renew RPC and one Unlock, (2) at least one Unavailable answer"
 	defer func() {
 		if err := res.Write(); err != nil {
 			t.Fatal(err)
